@@ -25,6 +25,7 @@ def props_meta():
 
 def check_property(prop, tier, units, run_unit, keep=False, jobs=8):
     t0 = time.time()
+    os.environ["VERIF_TIER_CUR"] = tier
     seed = int(os.environ.get("VERIF_SEED", "0") or 0)
     mine = [u for u in units.values() if prop in u.props and (tier == "thorough" or not getattr(u, "thorough_only", False))]
     ev_path = VERIF / "evidence" / f"{prop}.json"
@@ -144,6 +145,20 @@ def check_property(prop, tier, units, run_unit, keep=False, jobs=8):
             }, indent=1))
             has_input = bool(witness and witness.get("found"))
             out_lines.append(f"VIOLATION property={prop} replay={rp}" + ("" if has_input else " no-failing-input-found"))
+        # ---- thorough tier: self-mutation run of this property's mutants (cross-validation of the contracts, never counted as obligations)
+        cross = None
+        if tier == "thorough" and not os.environ.get("VERIF_SELFTEST") and not violations and not undecided:
+            try:
+                env = dict(os.environ); env.pop("VERIF_TIER_CUR", None)
+                q = subprocess.run([sys.executable, str(VERIF / "selftest" / "run.py"), prop], capture_output=True, text=True, timeout=6 * 3600, env=env)
+                lines = [l for l in q.stdout.splitlines() if l.startswith(("ok ", "MISS", "SKIP"))]
+                cross = {"what": "every hand-written property-breaking edit of selftest/mutants.json for this property applied to a scratch copy; the check must report it (harmless.* edits must stay silent)",
+                         "mutants": len(lines), "as_expected": sum(l.startswith("ok ") for l in lines),
+                         "not_as_expected": [l[:200] for l in lines if not l.startswith("ok ")]}
+                for l in cross["not_as_expected"]:
+                    print("NOTE (self-mutation, not a verdict on /repo):", l)
+            except Exception as e:
+                cross = {"error": str(e)}
         # ---- evidence
         level = "proof"
         trusted = ["Verus 0.2026.09.13 + Z3 (SMT back end)", "rustc toolchains",
@@ -166,6 +181,8 @@ def check_property(prop, tier, units, run_unit, keep=False, jobs=8):
                 "undecided": undecided,
                 "known_findings_matched": kf_lines,
                 "units": [r.unit.uid for r in results],
+                **({"cross_validation": cross} if cross else {}),
+                **({"proof_stability": [{"unit": r.unit.uid, "runs": getattr(r, "stability", None)} for r in results if getattr(r, "stability", None)]} if tier == "thorough" else {}),
             },
             "assumptions": _prop_assumptions(prop, results),
             "wall_s": round(time.time() - t0, 2),
